@@ -116,10 +116,10 @@ impl SubCheck for Complete {
         48
     }
     fn rule(&self) -> String {
-        "GenAir family: width 1..255 (edge widths 1,2,7,8,9,16,17,33,254,255 favoured), rules next=a*cur^d+b*cur[k]+e / with a periodic factor / geometric (constant, x^k, periodic), degree 1..blowup+1, periodic columns of cycle 2..n, exemptions 1..n/2+1, single/periodic/sequence assertions drawn from the trace (first step 0 and !=0, sequences up to n/2 values), optional aux segment (sum/product columns, 0..255 random elements, Lagrange column), all-degenerate traces, 12 field/hasher pairs x extension 1..3, all option sets with a well-formed FRI schedule; trace by construction; non-trivial = width>8, sequence>=64 values, periodic column, exemptions>1, aux segment, extension field, degenerate trace, periodic assertion, ce-blowup<lde-blowup, degree>=4, non-zero first step or a Rescue hasher; distinct by whole shape".into()
+        "GenAir family: width 1..255 (edge widths 1,2,7,8,9,16,17,33,254,255 favoured), rules next=a*cur^d+b*cur[k]+e / with a periodic factor / geometric (constant, x^k, periodic), degree 1..blowup+1, periodic columns of cycle 2..n, exemptions 1..n/2+1, single/periodic/sequence assertions drawn from the trace (first step 0 and !=0, sequences up to n/2 values), optional aux segment (sum/product columns, 0..255 random elements, Lagrange column), all-degenerate traces, LDE coset left at the default or overridden through Air::domain_offset() (generator^-1, generator^3), 12 field/hasher pairs x extension 1..3, all option sets with a well-formed FRI schedule; trace by construction; non-trivial = width>8, sequence>=64 values, periodic column, exemptions>1, aux segment, extension field, degenerate trace, periodic assertion, ce-blowup<lde-blowup, degree>=4, non-zero first step or a Rescue hasher; distinct by whole shape".into()
     }
     fn required_labels(&self, tier: Tier) -> Vec<String> {
-        let mut v: Vec<String> = ["field=f62", "field=f64", "field=f128", "ext=1", "ext=2", "ext=3", "aux-segment", "lagrange", "assert=sequence", "assert=periodic", "periodic-column", "exemptions>1", "width>8", "fri-layers=0", "fri-layers=1", "grinding>0", "hasher=rescue", "hasher=rescue-jive"]
+        let mut v: Vec<String> = ["field=f62", "field=f64", "field=f128", "ext=1", "ext=2", "ext=3", "aux-segment", "lagrange", "assert=sequence", "assert=periodic", "periodic-column", "exemptions>1", "width>8", "fri-layers=0", "fri-layers=1", "grinding>0", "hasher=rescue", "hasher=rescue-jive", "domain-offset-overridden", "aux-constraints>main-constraints"]
             .iter()
             .map(|s| s.to_string())
             .collect();
